@@ -99,6 +99,12 @@ func analyseCollector(fn *ssa.Function) *collector {
 			if c, ok := v.(*ssa.Const); ok && c.Value == nil {
 				break
 			}
+			// make([][]byte, 0, n): empty, with room
+			if mk, isMk := v.(*ssa.MakeSlice); isMk {
+				if k, isK := an.ConstInt(mk.Len); isK && k == 0 {
+					break
+				}
+			}
 			call, ok := v.(*ssa.Call)
 			if !ok {
 				bad("the accumulator starts as %s, not empty", an.Render(v))
